@@ -42,6 +42,24 @@ TS_PATTERN = (r'^(?P<year>\d{4})-(?P<month>\d{2})-(?P<day>\d{2}) '
 
 
 Matcher = None
+MatcherWide = None
+TS_PATTERN_WIDE = (r'^(?P<year>\d+)-(?P<month>\d+)-(?P<day>\d+) '
+                   r'(?P<hours>\d+):(?P<minutes>\d+):(?P<seconds>\d+)')
+
+
+def _matcher_wide():
+    global MatcherWide
+    if MatcherWide is None:
+        from searchkit.constraints import TimestampMatcherBase
+
+        class _W(TimestampMatcherBase):
+            @property
+            def patterns(self):
+                return [TS_PATTERN_WIDE]
+        _W.__name__ = _W.__qualname__ = 'MatcherWide'
+        _W.__module__ = __name__
+        MatcherWide = _W
+    return MatcherWide
 
 
 def _matcher():
@@ -63,7 +81,8 @@ def _matcher():
 def make_objects(recipe):
     from searchkit import SearchDef, SequenceSearchDef, ResultFieldInfo
     from searchkit.constraints import SearchConstraintSearchSince
-    Matcher = _matcher()
+    Matcher = _matcher_wide() if recipe.get('matcher') == 'wide' \
+        else _matcher()
 
     cons = []
     for c in recipe.get('constraints', []):
